@@ -267,3 +267,43 @@ def replay(ctx, prop, path):
     traces = sc.record(payload['scenario'], [h])
     verdicts, _ = sc.validate(traces)
     return judge(ctx, prop, traces, verdicts)
+
+
+# model-level mutation testing: with a defect switched on in the MODEL, TLC must
+# find a counterexample of the property's invariant (else the invariant is vacuous
+# for that mechanism)
+MODEL_DEFECTS = {
+    'C02': [('shape_no_traits', 'topology', ['Submit', 'RemoveApp', 'Down', 'Up'], 'InvC02', 4)],
+    'C03': [('no_partition_fix', 'base', ['Submit', 'Move'], 'InvC03', 3)],
+    'C04': [('evict_no_ancestors', 'affinity', ['Submit', 'SetPrio'], 'InvC04', 4)],
+    'C05': [('identity_kept_on_skip', 'identity', ['Submit', 'Blacklist', 'RemoveServer'], 'InvC05', 3),
+            ('adjust_xor', 'identity', ['Submit', 'SetCount'], 'InvC05', 4)],
+}
+
+
+def selftest(ctx, prop):
+    """(a) defects switched on in the model must violate the invariant;
+    (b) every seeded change for this property must make the check exit 1."""
+    import glob
+    import json
+    import os
+    import subprocess
+    ok = True
+    for defect, scn, events, inv, me in MODEL_DEFECTS.get(prop, []):
+        mod, cfg, files = sc.mc_files(scn, events, me, 2, invariants=[inv], defects=[defect], tag='_st')
+        res = tlc.mc(sc.SPEC_DIR, mod, cfg, extra_files=files, coverage=False, timeout=600)
+        good = res['violated'] == inv
+        ok = ok and good
+        print('selftest model defect %-24s -> %s' % (defect, 'counterexample of %s in %d steps' % (inv, len(res['cex']))
+                                                     if good else 'NOT DETECTED'))
+    for d in sorted(glob.glob(os.path.join(core.VERIF, 'seeded', prop + '-*'))):
+        if not os.path.exists(os.path.join(d, 'patch.diff')):
+            continue
+        r = subprocess.run([os.path.join(core.VERIF, 'tools_seeded.py'), 'eval', d],
+                           stdout=subprocess.PIPE, stderr=subprocess.STDOUT)
+        hist = json.load(open(os.path.join(d, 'results.json')))
+        rc = list(hist[-1]['checks'].values())[0]['exit'] if hist and hist[-1].get('checks') else None
+        print('selftest seeded change %-22s -> check exit %s' % (os.path.basename(d), rc))
+        ok = ok and rc == 1
+    print('selftest %s' % ('passed' if ok else 'FAILED'))
+    return 0 if ok else 1
